@@ -5,12 +5,14 @@
 //! metrics x both search structures, judged against brute force with the same `Distance` object;
 //! structured larger sets (n <= 200, 1..6 dimensions); the scale-boundary alphabet of the cover
 //! tree; every labelling / k / weight / structure for the two estimators; ring layouts around a
-//! centre point (round 2, `ring.rs`).
+//! centre point (round 2, `ring.rs`); real-valued class-label tables / offset target tables on
+//! lattice multisets, ring layouts and structured sets (round 3, `labels.rs`).
 //! E2: explicit-state search over the real `HeapSelection`.
 
 mod data;
 mod est;
 mod heap;
+mod labels;
 mod ring;
 mod search;
 
@@ -60,7 +62,84 @@ fn run_ring_est<T: Fl>(job: &Job, seed: u64) {
     let distance_weighted = mc::choose(2) == 1;
     let cover_tree = mc::choose(2) == 0;
     mc::count("ring_estimator_executions");
-    est::est_case::<T>(&data, &y, &lay.queries(m), &est::Cfg { kind, metric, k, distance_weighted, cover_tree });
+    est::est_case::<T>(&data, &y, &lay.queries(m), &est::Cfg { kind, metric, k, distance_weighted, cover_tree, label_probe: false });
+}
+
+/// Round 3: the choices shared by the label-table executions, drawn after the data set is known:
+/// table (among those usable with n points in this float type), then k in 1..=n, weight, structure.
+/// `labelling(c)` draws / computes the class index of every point for a table with c values.
+fn run_label_case<T: Fl>(job: &Job, metric: Metric, data: &[Vec<f64>], queries: &[Vec<f64>], labelling: impl FnOnce(usize) -> Vec<usize>) {
+    let est = job.s("est");
+    let kind = if est == "cls" { est::Kind::Classifier } else { est::Kind::Regressor };
+    let n = data.len();
+    let tables = labels::eligible(est, n, T::NAME == "f32");
+    if tables.is_empty() {
+        return;
+    }
+    let values = labels::table(est, tables[mc::choose(tables.len())]);
+    let y: Vec<f64> = labelling(values.len()).iter().map(|&c| values[c]).collect();
+    let k = 1 + mc::choose(n);
+    let distance_weighted = mc::choose(2) == 1;
+    let cover_tree = mc::choose(2) == 0;
+    mc::count("lbl_executions");
+    match kind {
+        est::Kind::Classifier => {
+            if labels::span_trap(&y) {
+                mc::count("lbl_span_is_classes_minus_one_not_unit_spaced");
+            }
+        }
+        est::Kind::Regressor => mc::count("lbl_offset_target_executions"),
+    }
+    est::est_case::<T>(data, &y, queries, &est::Cfg { kind, metric, k, distance_weighted, cover_tree, label_probe: true });
+}
+
+thread_local! {
+    /// surjective labellings per (n, c), computed once per worker
+    static SURJ: std::cell::RefCell<std::collections::BTreeMap<(usize, usize), std::rc::Rc<Vec<Vec<usize>>>>> = std::cell::RefCell::new(Default::default());
+}
+
+fn surjective(n: usize, c: usize) -> std::rc::Rc<Vec<Vec<usize>>> {
+    SURJ.with(|s| s.borrow_mut().entry((n, c)).or_insert_with(|| std::rc::Rc::new(labels::surjective(n, c))).clone())
+}
+
+/// Round 3, lattice multisets: non-decreasing point sequences (the first points may be fixed by the
+/// job) x table x every labelling in which every value of the table occurs.
+fn run_lbl<T: Fl>(job: &Job, seed: u64) {
+    let m = seed_map(seed);
+    let metric = Metric::parse(job.s("metric"));
+    let n = job.u("n");
+    let dim = job.u("dim");
+    let letters = if dim == 2 { 9 } else { 5 };
+    let mut p = fixed_of(job);
+    while p.len() < n {
+        let lo = p.last().copied().unwrap_or(0);
+        p.push(lo + mc::choose(letters - lo));
+    }
+    let (data, queries): (Vec<Vec<f64>>, Vec<Vec<f64>>) = if dim == 2 {
+        (p.iter().map(|&i| lat2(i, m)).collect(), (0..NQ2).map(|q| qgrid2(q, m)).collect())
+    } else {
+        (p.iter().map(|&i| lat1(i, m)).collect(), (0..NQ1).map(|q| qgrid1(q, m)).collect())
+    };
+    run_label_case::<T>(job, metric, &data, &queries, |c| {
+        let all = surjective(n, c);
+        all[mc::choose(all.len())].clone()
+    });
+}
+
+/// Round 3, ring layouts with the sector labelling.
+fn run_ring_lbl<T: Fl>(job: &Job, seed: u64) {
+    let m = seed_map(seed);
+    let metric = Metric::parse(job.s("metric"));
+    let lay = ring_layout(job);
+    run_label_case::<T>(job, metric, &lay.data(m), &lay.queries(m), |c| lay.sector_labels(c));
+}
+
+/// Round 3, structured sets labelled by lexicographic rank.
+fn run_fam_lbl<T: Fl>(job: &Job, seed: u64) {
+    let metric = Metric::parse(job.s("metric"));
+    let data = family(job.s("family"), job.u("n"), job.u("dim"), seed);
+    let queries = family_queries(&data);
+    run_label_case::<T>(job, metric, &data, &queries, |c| labels::by_lexicographic_rank(&data, c));
 }
 
 fn run_search<T: Fl>(job: &Job, seed: u64) {
@@ -130,7 +209,7 @@ fn run_est<T: Fl>(job: &Job, seed: u64) {
     } else {
         (p.iter().map(|&i| lat1(i, m)).collect(), (0..NQ1).map(|q| qgrid1(q, m)).collect())
     };
-    est::est_case::<T>(&data, &y, &queries, &est::Cfg { kind, metric, k, distance_weighted, cover_tree });
+    est::est_case::<T>(&data, &y, &queries, &est::Cfg { kind, metric, k, distance_weighted, cover_tree, label_probe: false });
 }
 
 fn heap_model(tier: Tier) -> (heap::HeapModel, usize) {
@@ -329,6 +408,94 @@ impl Harness for C04 {
                 }
             }
         }
+        // ---- round 3: real-valued label tables / offset target tables (see labels.rs)
+        // lattice multisets (non-decreasing sequences) x table x every labelling onto the table
+        let lbl_job = |est: &str, dim: usize, n: usize, metric: Metric, fixed: &[usize], f32_: bool| {
+            let fx: Vec<String> = fixed.iter().map(|x| x.to_string()).collect();
+            Job::new(
+                format!("lbl-{}-d{}-n{}-{}{}{}", est, dim, n, metric.name(), if f32_ { "-f32" } else { "" }, if fixed.is_empty() { String::new() } else { format!("-p{}", fx.join("_")) }),
+                json!({"kind": "lbl", "est": est, "dim": dim, "n": n, "metric": metric.name(), "fixed": fixed, "f32": f32_, "seed": seed}),
+            )
+        };
+        let (lbl1_max, lbl2_max) = if t { (5, 4) } else { (4, 3) };
+        // quick: Euclidean and Hamming up to 3 points, the largest size Euclidean only
+        let lbl_metrics = |n: usize, max: usize| -> Vec<Metric> {
+            if t {
+                if n == 5 {
+                    vec![Metric::Euclid, Metric::Hamming]
+                } else {
+                    all.to_vec()
+                }
+            } else if n < max {
+                vec![Metric::Euclid, Metric::Hamming]
+            } else {
+                vec![Metric::Euclid]
+            }
+        };
+        for n in 2..=lbl1_max.max(lbl2_max) {
+            for est in ["cls", "reg"] {
+                if n <= lbl1_max {
+                    for metric in lbl_metrics(n, lbl1_max) {
+                        if n <= 3 {
+                            jobs.push(lbl_job(est, 1, n, metric, &[], false));
+                        } else {
+                            (0..5).for_each(|a| jobs.push(lbl_job(est, 1, n, metric, &[a], false)));
+                        }
+                    }
+                }
+                if n <= lbl2_max {
+                    for metric in lbl_metrics(n, lbl2_max) {
+                        if n <= 2 {
+                            jobs.push(lbl_job(est, 2, n, metric, &[], false));
+                        } else {
+                            (0..9).for_each(|a| jobs.push(lbl_job(est, 2, n, metric, &[a], false)));
+                        }
+                    }
+                }
+            }
+            if n <= 3 {
+                jobs.push(lbl_job("cls", 1, n, Metric::Euclid, &[], true));
+            }
+        }
+        // ring layouts with the sector labelling
+        let lbl_ring_radii: &[usize] = if t { &[0, 1, 2, 3, 4] } else { &[1] };
+        let lbl_ring_m_max = if t { 12 } else { 8 };
+        let lbl_ring: &[(usize, Metric)] = if t { &[(2, Metric::Euclid), (2, Metric::Manhattan), (3, Metric::Euclid)] } else { &[(2, Metric::Euclid)] };
+        for mm in 3..=lbl_ring_m_max {
+            for &(dim, metric) in lbl_ring {
+                for est in ["cls", "reg"] {
+                    for &ri in lbl_ring_radii {
+                        jobs.push(Job::new(
+                            format!("ringlbl-{}-d{}-m{}-r{}-{}", est, dim, mm, ri, metric.name()),
+                            json!({"kind": "ringlbl", "est": est, "dim": dim, "m": mm, "ri": ri, "metric": metric.name(), "nring2": nring2, "f32": false, "seed": seed}),
+                        ));
+                    }
+                }
+            }
+        }
+        // structured sets labelled by lexicographic rank
+        let lbl_fam_sizes: &[usize] = if t { &[8, 16] } else { &[8] };
+        for &n in lbl_fam_sizes {
+            for &dim in dims {
+                for fam in FAMILIES {
+                    for &metric in &all {
+                        // n = 16: no Hamming / all-identical sets (ties among all 16 points, the oracle enumerates subsets of ties)
+                        if n > 8 && (metric == Metric::Hamming || *fam == "identical") {
+                            continue;
+                        }
+                        if !t && !(metric == Metric::Euclid || (metric == Metric::Manhattan && dim == 2) || (metric == Metric::Hamming && dim == 3) || (metric == Metric::Mink3 && dim == 6)) {
+                            continue;
+                        }
+                        for est in ["cls", "reg"] {
+                            jobs.push(Job::new(
+                                format!("famlbl-{}-{}-n{}-d{}-{}", est, fam, n, dim, metric.name()),
+                                json!({"kind": "famlbl", "est": est, "family": fam, "n": n, "dim": dim, "metric": metric.name(), "f32": false, "seed": seed}),
+                            ));
+                        }
+                    }
+                }
+            }
+        }
         let jobs = {
             let mut j: Vec<Job> = jobs;
             j.insert(0, Job::new("builders", json!({"kind": "builders"})));
@@ -369,6 +536,11 @@ impl Harness for C04 {
                 ("ring_estimator_executions", 80_000),
                 ("ring_tree_child_radius_exceeds_parent", 1_500),
                 ("ring_query_needs_child_radius", 400),
+                // round 3 (label tables): the execution counts do not depend on the seed; the row counter is about a fifth of the quick-tier count
+                ("lbl_executions", 400_000),
+                ("lbl_offset_target_executions", 100_000),
+                ("lbl_span_is_classes_minus_one_not_unit_spaced", 100_000),
+                ("lbl_rows_all_neighbours_one_inner_label", 20_000),
             ],
             bounds: json!({
                 "builders": mc_sc::builders::BOUNDS,
@@ -396,6 +568,21 @@ impl Harness for C04 {
                     ring_est_m_max,
                     ring_est.iter().map(|(d, mt)| format!("{}-D {}", d, mt.name())).collect::<Vec<_>>(),
                     if t { "" } else { "; single ring m in {15, 16} Euclidean 2-D" }
+                ),
+                "label_tables": format!(
+                    "classifier label tables {:?} and regressor target tables {:?}, the table chosen among those with at most n values (f32: classifier tables exactly representable in f32); k in 1..=n x 2 weights x 2 structures, one fit + one predict of all queries, plurality / weighted-mean oracle on the original values; data sets: (a) lattice multisets = non-decreasing sequences of 2..{} points of {{0..4}} (11 half-step queries) and of 2..{} points of the 3x3 lattice (25 queries) x EVERY labelling in which every value of the table occurs, metrics {}, f32 1-D 2..3 points Euclidean; (b) ring layouts m in 3..={}, radius index in {:?}, all second-ring / order / centre options of the tier, {:?}, sector labelling (ring position i -> class floor(i*c/m), centre = last class); (c) structured families {:?} with n in {:?}, dims {:?}, metrics as for the structured search jobs{}, labelling by lexicographic rank (class floor(rank*c/n))",
+                    labels::CLS_TABLES,
+                    labels::REG_TABLES,
+                    lbl1_max,
+                    lbl2_max,
+                    if t { "all 4 (5 points: Euclidean and Hamming)" } else { "Euclidean and Hamming (largest size: Euclidean only)" },
+                    lbl_ring_m_max,
+                    lbl_ring_radii,
+                    lbl_ring.iter().map(|(d, mt)| format!("{}-D {}", d, mt.name())).collect::<Vec<_>>(),
+                    FAMILIES,
+                    lbl_fam_sizes,
+                    dims,
+                    if t { " (n = 16: no Hamming, no all-identical set)" } else { "" }
                 ),
                 "heap_selection_e2": if t { "k in 1..7, add(v) v in 0..5, heapify, peek_mut+heapify; depth 11" } else { "k in 1..5, add(v) v in 0..4, heapify, peek_mut+heapify; depth 8" },
                 "seed_map": format!("coordinates c -> {}*c + {}", seed_map(seed).0, seed_map(seed).1),
@@ -428,6 +615,15 @@ impl Harness for C04 {
                     run_ring_est::<f64>(job, seed)
                 }
             }
+            "lbl" => {
+                if f32_ {
+                    run_lbl::<f32>(job, seed)
+                } else {
+                    run_lbl::<f64>(job, seed)
+                }
+            }
+            "ringlbl" => run_ring_lbl::<f64>(job, seed),
+            "famlbl" => run_fam_lbl::<f64>(job, seed),
             _ => {
                 if f32_ {
                     run_search::<f32>(job, seed)
@@ -450,7 +646,7 @@ impl Harness for C04 {
     }
 
     fn rule(&self) -> String {
-        "search: one execution = one (point sequence or ring layout, query, metric, float type), checked on both structures for every k and every radius of the radius alphabet; non-trivial when n >= 2 and at least one structure was built; estimators: one execution = one (point sequence, labelling, k, weight, structure), predictions for all queries of the grid, non-trivial when predictions were returned; distinct = distinct digest of the returned (index, distance) lists / predictions".into()
+        "search: one execution = one (point sequence or ring layout, query, metric, float type), checked on both structures for every k and every radius of the radius alphabet; non-trivial when n >= 2 and at least one structure was built; estimators: one execution = one (point sequence / multiset / layout, label or target table, labelling, k, weight, structure), predictions for all queries of the grid, non-trivial when predictions were returned; distinct = distinct digest of the returned (index, distance) lists / predictions".into()
     }
 
     fn assumptions(&self) -> Vec<String> {
